@@ -50,7 +50,7 @@ Survivors == {k \in Groups : Keeps(k)}
 \* delivered row r shows group k
 RowIs(r, k) ==
   /\ (cfg.gsel = 1 => ("g" \in DOMAIN r /\ Same(r.g, GVal(k))))
-  /\ \A al \in Aliases : Proj(k)[al].k = "err" \/ (al \in DOMAIN r /\ Matches(r[al], Proj(k)[al]))
+  /\ \A al \in Aliases : Bad(Proj(k)[al]) \/ (al \in DOMAIN r /\ Matches(r[al], Proj(k)[al]))
 \* the engine also reports the GROUP BY column when it is not selected; only HAVING helpers and other extras are "hidden" columns
 Visible == Aliases \cup {"g", "window_id"}
 
